@@ -3,7 +3,7 @@
    make_structure_from_block: model switch with find_or_add_model, chain switch, find_or_add_residue).
    Entities, assemblies, connections, secondary structure, sequences, numbers (%.9g) and the PDB route are covered by
    the end-to-end oracles of props/C07.py only (no theorem). *)
-From GV Require Import Base.Str Pdb.AtomSite Pdb.AtomSiteProofs Pdb.Subchain Pdb.SubchainProofs.
+From GV Require Import Base.Str Pdb.AtomSite Pdb.AtomSiteProofs Pdb.Subchain Pdb.SubchainProofs Pdb.CcdAlias Pdb.CcdAliasProofs.
 Local Open Scope Z_scope.
 
 (* WFs: model numbers pairwise distinct, adjacent chains of a model differ in name, residues of one chain have pairwise
@@ -57,3 +57,55 @@ Theorem C07_suffix_examples :
   [[49]; [57]; [48]; [48; 49]; [48; 90]; [49; 48]; [49; 49]; [90; 90]; [49; 48; 48]].
 Proof. exact np_suffix_values. Qed.
 Print Assumptions C07_suffix_examples.
+
+(* ------------------------------------------------------------------------------------------------------------
+   Residue names longer than three characters (shorten_ccd_codes / restore_full_ccd_codes, src/polyheur.cpp, modelled in
+   Pdb/CcdAlias.v: collection of the distinct long names, the "~" + last-two-characters pass, the numbered fall-back
+   pass with its shared counter, the renaming loops). For EVERY list of residue names:
+   the aliases given are pairwise distinct and have the shape ~xy, every long name (and nothing else) is in the table
+   exactly once; *)
+Theorem C07_ccd_aliases_distinct : forall names,
+  let t := shorten_table names in
+  NoDup (filter nonempty (aliases t)) /\ Forall shaped (aliases t) /\ NoDup (map fst t) /\
+  (forall n, In n (map fst t) <-> In n names /\ (3 < length n)%nat).
+Proof.
+  intros names t. destruct (shorten_table_spec names) as [G [S [ND [_ H]]]]. exact (conj G (conj S (conj ND H))).
+Qed.
+Print Assumptions C07_ccd_aliases_distinct.
+
+(* when the aliases did not run out, every shortened name fits the three-character field, and restoring gives back
+   exactly the original names (no residue name may start with '~', the prefix reserved for aliases) *)
+Theorem C07_ccd_shorten_fits : forall names,
+  let t := shorten_table names in
+  Forall (fun a => a <> []) (aliases t) ->
+  forall n, In n (apply_shorten t names) -> (length n <= 3)%nat.
+Proof. exact shortened_names_fit. Qed.
+Print Assumptions C07_ccd_shorten_fits.
+
+Theorem C07_ccd_shorten_restore : forall names,
+  (forall n, In n names -> nth 0 n 0 <> 126) ->
+  let t := shorten_table names in
+  Forall (fun a => a <> []) (aliases t) ->
+  apply_restore t (apply_shorten t names) = names.
+Proof. exact shorten_restore_roundtrip. Qed.
+Print Assumptions C07_ccd_shorten_restore.
+
+(* non-vacuity: three long names ending in CD (one alias ~CD, two numbered ones), a name ending in 00 that takes the
+   alias the numbered pass would try first, short names in between, a repeated long name *)
+Definition ex_names : list str :=
+  [[65; 49; 66; 67; 68];
+   [65; 50; 66; 67; 68];
+   [65; 76; 65];
+   [81; 48; 48; 48; 49];
+   [66; 51; 66; 67; 68];
+   [65; 49; 66; 67; 68];
+   [72; 79; 72];
+   [90; 57; 57; 48; 48]].
+Example C07_ccd_example :
+  map snd (shorten_table ex_names) = [[126; 67; 68]; [126; 48; 50]; [126; 48; 49]; [126; 48; 51]; [126; 48; 48]].
+Proof. vm_compute. reflexivity. Qed.
+Example C07_ccd_example_table :
+  forallb (fun a => negb (match a with [] => true | _ => false end)) (map snd (shorten_table ex_names)) = true /\
+  forallb (fun n => negb (nth 0 n 0 =? 126)) ex_names = true /\
+  apply_restore (shorten_table ex_names) (apply_shorten (shorten_table ex_names) ex_names) = ex_names.
+Proof. vm_compute. repeat split; reflexivity. Qed.
